@@ -187,7 +187,7 @@ def run(ctx: Ctx):
               b"=", b",", b'"', b"\\", b"TZID=", b"TZID:", b"DTSTART", b"RRULE:FREQ=", b"YEARLY", b"VALUE=", b"DATE", b"PERIOD", b"/", b"P1D", b"20240101",
               b"T000000", b"Z", b"RDATE", b"FREEBUSY", b"TRIGGER", b"X-", b"\xff", b"\xc3", b"\x00", b"%2C", b"TZOFFSETFROM:", b"+0100", b"-", b"Europe/Berlin",
               b"DURATION:", b"ATTENDEE", b"mailto:", b"GEO:", b"1;2", b"CATEGORIES:"]
-    nf = 600 if ctx.quick else 20000
+    nf = 600 if ctx.quick else 150000
     try:
         for prov in ("zoneinfo", "pytz"):
             tzp.use(prov)
